@@ -165,16 +165,28 @@ def gen_sync_case(rng):
         sp = rng.choice([s_ for s_ in c13.SPACINGS if s_ >= m['min_spacing'] and int(band // s_) >= 2] or [50e9])
         return c13.request_json(i, src, dst, None if auto else m['format'], sp, rng.random() < 0.3,
                                 bandwidth=rng.choice([100e9, 200e9]))
+    if n == 4 and rng.random() < 0.3:                                 # a chord: a small mesh instead of a ring
+        env['lines'].append(['A', 'C', [round(rng.uniform(20, 110), 1)], [round(rng.uniform(20, 110), 1)]])
     reqs, sync = [], []
-    for g in range(rng.choice([1, 1, 2])):
+    first_ends = None
+    for g in range(rng.choice([1, 2, 2])):
         src, dst = rng.sample(names, 2)
+        if g > 0 and rng.random() < 0.7:
+            src, dst = first_ends        # twin end points ACROSS vectors: this request's routes are also routes of a
+            #                              request of the other vector, which prunes them for reasons of its own partner
+        if g == 0:
+            first_ends = (src, dst)
         a = mk(len(reqs), src, dst)
         reqs.append(a)
-        if rng.random() < 0.7:
+        k = rng.random()
+        if k < 0.45:
             b = mk(len(reqs), src, dst)                               # working / protection between the same nodes
+        elif k < 0.85:
+            other = rng.choice([x for x in names if x not in (src, dst)])
+            b = mk(len(reqs), src, other)                             # shares the start: conflicts with some routes of a
         else:
-            other = rng.choice([x for x in names if x != src])
-            b = mk(len(reqs), src, other)                             # shares at most the start of the route
+            s2, d2 = rng.sample(names, 2)
+            b = mk(len(reqs), s2, d2)
         reqs.append(b)
         pair = [a['request-id'], b['request-id']]
         if rng.random() < 0.5:
